@@ -43,6 +43,15 @@ impl super::MainState {
             let user = state.users.get_mut(user_nick.as_str()).unwrap();
             for (i, chname_str) in channels.iter().enumerate() {
                 let chname = chname_str.to_string();
+                // channel named again in the list after accepted join - is already joined
+                if channels[..i]
+                    .iter()
+                    .zip(joined_created.iter())
+                    .any(|(c, (j, _))| c == chname_str && *j)
+                {
+                    joined_created.push((false, false));
+                    continue;
+                }
                 let (join, create) = if let Some(channel) = state.channels.get(&chname) {
                     // if already created
                     let do_join = if let Some(key) = &channel.modes.key {
